@@ -176,6 +176,41 @@ def run(chk):
             if not np.array_equal(P @ Lm.conj() @ P, Lm):
                 chk.fail("liouvillian-herm", f"{api}.liouvillian does not preserve Hermiticity", info)
 
+    # ---- (b2) two-site generators of SystemChain (add_nn_hamiltonian / add_nn_dissipation, any rate): they are the
+    # Lindbladian of the joint space with operator A (x) B, up to the library's leg order ((i_l j_l),(i_r j_r)) ----------
+    for it in range(40 if thorough else 14):
+        dl, dr = rng.choice([1, 2, 2]), rng.choice([2, 2, 3] if not thorough else [2, 3])
+        if dl * dr > 6:
+            dr = 2
+        D = dl * dr
+        chain = oqupy.SystemChain([dl, dr])
+        Hj = np.zeros((D, D), dtype=complex)
+        for _ in range(rng.randint(0, 2)):
+            hl, hr = herm_int(rng, dl), herm_int(rng, dr)
+            chain.add_nn_hamiltonian(0, hl, hr)
+            Hj = Hj + np.kron(hl, hr)
+        nterms = rng.randint(1, 2)
+        jterms = []
+        for _ in range(nterms):
+            g, A, B = rng.choice([0, 1, 2, 3, 5]), gint(rng, (dl, dl), -1, 1), gint(rng, (dr, dr), -1, 1)
+            chain.add_nn_dissipation(0, A, B, gamma=float(g))
+            jterms.append((g, np.kron(A, B)))
+        L = np.array(chain.get_nn_full_liouvillians()[0])
+        # to the joint-space order (i_l i_r j_l j_r)
+        Lj = L.reshape(dl, dl, dr, dr, dl, dl, dr, dr).transpose(0, 2, 1, 3, 4, 6, 5, 7).reshape(D * D, D * D)
+        tl = coq_list([f"({zlit(g)}, {mat_lit(C)})" for g, C in jterms])
+        exprs.append(f"liouv2_flat {D} {mat_lit(Hj)} {tl}")
+        expected.append(gflat(2 * Lj))
+        info = {"kind": "liouvillian", "api": "SystemChain.nn", "d": [dl, dr], "terms": nterms, "rates": [g for g, _ in jterms]}
+        meta.append(info)
+        chk.count("liouvillian_SystemChain_nn")
+        chk.case(info, ("liouv-nn", dl, dr, nterms, tuple(g for g, _ in jterms), it % 4))
+        chk.search_cases += 1
+        trv = np.kron(np.eye(dl).reshape(-1), np.eye(dr).reshape(-1))
+        if np.abs(trv @ L).max() != 0:
+            chk.fail("liouvillian-trace", f"SystemChain: the two-site generator with nearest-neighbour dissipation (rates {info['rates']}) does not preserve the trace "
+                     f"(|tr . L| = {np.abs(trv @ L).max():.3g})", info)
+
     # ---- (c) the hypotheses of pathsum_trace, observed on the library's own ingredients -------------
     # influence functions are EXACTLY 1 where the later index is a population (exp(0)); basis changes and
     # half-step propagators preserve the trace functional column-wise (1e-12: expm sits in between)
@@ -252,7 +287,8 @@ def run(chk):
         trusted=["models: Model/SuperOps.v (kron form and index-pair form), Model/Shapes.v (influence exponent)",
                  "the theorems are about twice the Lindbladian (no 1/2 in an arbitrary ring)"],
         rule="operators.py superoperators on Gaussian-integer matrices d=1..3 against both model forms; Lindbladians of System and "
-             "TimeDependentSystem with 0-3 integer-rate dissipators (exact, incl. non-Hermitian H); hypotheses of pathsum_trace on influence_matrix (exactly 1 on population columns, every dk), "
+             "TimeDependentSystem with 0-3 integer-rate dissipators (exact, incl. non-Hermitian H); two-site generators of SystemChain (nn Hamiltonians, nn dissipation with "
+             "rates 0-5) against the joint-space Lindbladian of the model (exact); hypotheses of pathsum_trace on influence_matrix (exactly 1 on population columns, every dk), "
              "Bath.unitary_transform and System propagators; search: Tempo, PtTempo, MeanFieldTempo, GibbsTempo, PtTebd "
              "with alpha up to 1.5, T in {0,.3,2}, pure/mixed/rank-deficient initial states; trace/Hermiticity within 50*epsrel at every step, positivity at full memory",
         assumptions=["positivity and the effect of SVD truncation on the trace are explored on the implementation only (no theorem)",
